@@ -416,6 +416,55 @@ theorem lastAttempt_inv (alive : List Nat) (w w' : WP) (alive' : List Nat)
       refine ⟨linv_next envOf hasCb input hl i1 s1, t2 rfl, fun h0 => ?_⟩
       rw [h0] at he; simp at he
 
+/-- a fresh call: nothing gone yet, no callback made, every cached exit code is a true one -/
+def Fresh (w : WP) : Prop :=
+  w.gone = [] ∧ w.cbLog = [] ∧
+  ∀ q v, (w.objs q).exitcode = some v → RightVal (envOf q) v ∧ endedBy (envOf q) w.now
+
+/-- everything `wait_procs` guarantees about its final state, in one statement -/
+theorem waitProcs_inv (procs : List Nat) (timeout : Option Rat) (w w' : WP) (alive' : List Nat)
+    (hf : Fresh envOf w)
+    (h : waitProcs c envOf procs timeout hasCb order fuel w = .ok (w', alive')) :
+    LInv envOf hasCb (dedup procs) w' alive' ∧ w.now ≤ w'.now ∧
+    (∀ τ, timeout = some τ → w'.now < w.now + τ + Spec.cap) ∧
+    (timeout = none → alive' = []) := by
+  obtain ⟨hg0, hcb0, hc0⟩ := hf
+  have hl0 : LInv envOf hasCb (dedup procs) w (dedup procs) := by
+    refine ⟨⟨by rw [hg0]; simp, by rw [hcb0, hg0]; simp, by rw [hg0]; simp, by rw [hg0]; simp, hc0⟩,
+      nodup_dedup procs, fun q => by rw [hg0]; simp⟩
+  unfold waitProcs at h
+  by_cases hneg : negative timeout = true
+  · simp [hneg] at h
+  · simp only [hneg, Bool.false_eq_true, if_false] at h
+    cases ht : timeout with
+    | some τ =>
+      rw [ht] at h; simp only at h
+      have hτ : 0 ≤ τ := by
+        rw [ht] at hneg; simp [negative] at hneg; exact hneg
+      cases hw : whileT c envOf hasCb fuel order (w.now + τ) fuel (dedup procs) w τ with
+      | error o => rw [hw] at h; cases h
+      | ok r =>
+        obtain ⟨w1, alive1⟩ := r
+        rw [hw] at h; simp only at h
+        obtain ⟨l1, m1, d1⟩ := whileT_inv hg envOf hasCb fuel (dedup procs) order hperm (w.now + τ)
+          fuel _ w τ w1 alive1 hl0 (by linarith [cap_pos]) hw
+        obtain ⟨l2, n2, _⟩ := lastAttempt_inv hg envOf hasCb fuel (dedup procs) order hperm
+          alive1 w1 w' alive' l1 h
+        refine ⟨l2, (by rw [n2]; exact m1), ?_, fun h0 => (by cases h0)⟩
+        intro τ' hτ'; cases hτ'; rw [n2]; exact d1
+    | none =>
+      rw [ht] at h; simp only at h
+      cases hw : whileN c envOf hasCb fuel order fuel (dedup procs) w with
+      | error o => rw [hw] at h; cases h
+      | ok r =>
+        obtain ⟨w1, alive1⟩ := r
+        rw [hw] at h; simp only at h
+        obtain ⟨l1, m1, e1⟩ := whileN_inv hg envOf hasCb fuel (dedup procs) order hperm
+          fuel _ w w1 alive1 hl0 hw
+        obtain ⟨l2, n2, e2⟩ := lastAttempt_inv hg envOf hasCb fuel (dedup procs) order hperm
+          alive1 w1 w' alive' l1 h
+        exact ⟨l2, (by rw [n2]; exact m1), fun τ' h0 => (by cases h0), fun _ => e2 e1⟩
+
 end
 
 end Psutil.C15
